@@ -7,6 +7,9 @@ decomposition and threshold exactness.
 Tie: real predict() (all retained columns) vs the compiled model at Float on generated data x models
 (guards and term frequencies computed by the harness itself); an independent closed-form oracle
 (log2 sum) decides the property on the real output.
+Input families: 'library' (single-column comparisons in library order) and 'free' (custom comparisons: levels in arbitrary
+order, null levels anywhere / several, overlapping and multi-column conditions under SQL three-valued logic); settings built
+four ways, retain flags, predict() flags, object reuse; waterfall records of every returned pair checked by the oracle.
 """
 from __future__ import annotations
 
@@ -17,8 +20,11 @@ import random
 from harness import core
 
 PROP = "C02"
-STR_DOM = ["ann", "anne", "bob", "bobb", "cy", "dee"]
-INT_DOM = [0, 1, 2, 5]
+# "an" gives pairs at levenshtein distance exactly 2 (an/anne, an/cy), "" is the empty string (distance = length of the other value)
+STR_DOM = ["ann", "anne", "bob", "bobb", "cy", "dee", "an", ""]
+B_DOM = ["ann", "anne", "bob", "bobb", "an"]
+INT_DOM = [0, 1, 2, 5, -1]
+COL_TYPES = {"a": "str", "b": "str", "c": "int"}
 
 
 def lev(a: str, b: str) -> int:
@@ -33,12 +39,123 @@ def lev(a: str, b: str) -> int:
     return prev[-1]
 
 
+# --------------------------------------------------------------------------- level conditions (trees over the columns a, b, c)
+# atoms: eq / ne / lev k / absdiff k on one column, xeq (l-column of the left record = r-column of the right record),
+#        null (either side missing), bothnull, lnull, rnull;  composites: and / or (n-ary), not.
+# A level of the original (single column, library-ordered) family carries no "cond": its condition follows from kind/col.
+def level_cond(c, l):
+    """Condition tree of a level (None for ELSE)."""
+    if l["kind"] == "else":
+        return None
+    if "cond" in l:
+        return l["cond"]
+    k = l["kind"]
+    if k in ("null", "eq"):
+        return {"op": k, "col": c["col"]}
+    return {"op": k, "col": c["col"], "k": l["k"]}
+
+
+def cond_sql(t, top=True):
+    op = t["op"]
+    if op in ("and", "or"):
+        s = f" {op.upper()} ".join("(" + cond_sql(a, False) + ")" for a in t["args"])
+        return s
+    if op == "not":
+        return "NOT (" + cond_sql(t["arg"], False) + ")"
+    if op == "xeq":
+        return f'"{t["l"]}_l" = "{t["r"]}_r"'
+    cl, cr = f'"{t["col"]}_l"', f'"{t["col"]}_r"'
+    if op == "null":
+        return f"{cl} IS NULL OR {cr} IS NULL"
+    if op == "bothnull":
+        return f"{cl} IS NULL AND {cr} IS NULL"
+    if op == "lnull":
+        return f"{cl} IS NULL"
+    if op == "rnull":
+        return f"{cr} IS NULL"
+    if op == "eq":
+        return f"{cl} = {cr}"
+    if op == "ne":
+        return f"{cl} <> {cr}"
+    if op == "lev":
+        return f"levenshtein({cl}, {cr}) <= {t['k']}"
+    if op == "absdiff":
+        return f"abs({cl} - {cr}) <= {t['k']}"
+    raise ValueError(op)
+
+
+def cond_cols(t):
+    op = t["op"]
+    if op in ("and", "or"):
+        out = []
+        for a in t["args"]:
+            out += [c for c in cond_cols(a) if c not in out]
+        return out
+    if op == "not":
+        return cond_cols(t["arg"])
+    if op == "xeq":
+        return [t["l"], t["r"]]
+    return [t["col"]]
+
+
+def cond_eval(t, x, y):
+    """SQL three-valued truth of a condition on the pair (x = left record, y = right record): 0 false, 1 true, 2 unknown."""
+    op = t["op"]
+    if op == "and":
+        vs = [cond_eval(a, x, y) for a in t["args"]]
+        return 0 if 0 in vs else (2 if 2 in vs else 1)
+    if op == "or":
+        vs = [cond_eval(a, x, y) for a in t["args"]]
+        return 1 if 1 in vs else (2 if 2 in vs else 0)
+    if op == "not":
+        return {0: 1, 1: 0, 2: 2}[cond_eval(t["arg"], x, y)]
+    if op == "xeq":
+        p, q = x[t["l"]], y[t["r"]]
+        return 2 if p is None or q is None else int(p == q)
+    p, q = x[t["col"]], y[t["col"]]
+    if op == "null":
+        return int(p is None or q is None)
+    if op == "bothnull":
+        return int(p is None and q is None)
+    if op == "lnull":
+        return int(p is None)
+    if op == "rnull":
+        return int(q is None)
+    if p is None or q is None:
+        return 2
+    if op == "eq":
+        return int(p == q)
+    if op == "ne":
+        return int(p != q)
+    if op == "lev":
+        return int(lev(p, q) <= t["k"])
+    if op == "absdiff":
+        return int(abs(p - q) <= t["k"])
+    raise ValueError(op)
+
+
+def is_plain_eq(t, col):
+    return t is not None and t["op"] == "eq" and t["col"] == col
+
+
+def tf_col(c, l):
+    return l["tf"].get("col", c["col"])
+
+
 # --------------------------------------------------------------------------- case generation
 def gen_probs(rng, k, allow_zero_u=False):
     xs = [rng.uniform(0.02, 1.0) for _ in range(k)]
     s = sum(xs)
     out = [round(x / s, 6) or 0.000001 for x in xs]
     return out
+
+
+def boundary_probs(rng, nn):
+    """m = 1.0 / u = 1.0 exactly on some level (the closed ends of the (0,1] range of the quantifier)."""
+    if rng.random() < 0.08:
+        rng.choice(nn)["m"] = 1.0
+    if rng.random() < 0.08:
+        rng.choice(nn)["u"] = 1.0
 
 
 def gen_comparison(rng: random.Random, col: str, engine: str):
@@ -61,6 +178,7 @@ def gen_comparison(rng: random.Random, col: str, engine: str):
     ms, us = gen_probs(rng, len(nn)), gen_probs(rng, len(nn))
     for l, m, u in zip(nn, ms, us):
         l["m"], l["u"] = m, u
+    boundary_probs(rng, nn)
     tf = col in ("a", "b") and rng.random() < 0.6
     if tf:
         for l in nn:
@@ -72,35 +190,132 @@ def gen_comparison(rng: random.Random, col: str, engine: str):
         # infinite Bayes factor: u = 0 on a level that carries no TF adjustment and is not the exact-match level a TF level
         # takes its u from ((0/x)^w * Infinity is undefined - outside the property's quantifier)
         cand = [l for l in nn if "tf" not in l and not (tf and l["kind"] == "eq")]
-        if cand and engine != "sqlite":  # known finding K6: SQLite cannot represent an infinite Bayes factor (corpus case keeps it visible)
+        if cand:  # on every engine since the repair of K6 (SQLite used to be unable to represent an infinite Bayes factor)
             rng.choice(cand)["u"] = 0.0
     return {"col": col, "levels": levels}
 
 
-def gen_case(rng: random.Random, engine=None):
-    engine = engine or rng.choice(["duckdb", "duckdb", "sqlite"])
+# ---- free-form family: levels in ARBITRARY order (null level(s) anywhere, overlapping conditions, conditions over several columns)
+def gen_atom(rng, col):
+    if COL_TYPES[col] == "int":
+        return rng.choice([{"op": "eq", "col": col}] * 3 + [{"op": "absdiff", "col": col, "k": 1}, {"op": "absdiff", "col": col, "k": 2}, {"op": "ne", "col": col}])
+    return rng.choice([{"op": "eq", "col": col}] * 3 + [{"op": "lev", "col": col, "k": 1}] * 2 + [{"op": "lev", "col": col, "k": 2}, {"op": "ne", "col": col}])
+
+
+def gen_cond(rng, cols):
+    r = rng.random()
+    if len(cols) == 1 or r < 0.4:
+        return gen_atom(rng, rng.choice(cols))
+    c1, c2 = rng.sample(cols, 2)
+    if r < 0.62:
+        return {"op": "and", "args": [gen_atom(rng, c1), gen_atom(rng, c2)]}
+    if r < 0.74:
+        return {"op": "or", "args": [gen_atom(rng, c1), gen_atom(rng, c2)]}
+    if r < 0.84:  # "first name agrees, surname missing": a non-null level whose condition contains a null test
+        return {"op": "and", "args": [gen_atom(rng, c1), {"op": rng.choice(["null", "null", "bothnull", "rnull"]), "col": c2}]}
+    if r < 0.92 and COL_TYPES[c1] == COL_TYPES[c2] == "str":
+        return {"op": "xeq", "l": c1, "r": c2}
+    return {"op": "and", "args": [gen_atom(rng, c1), {"op": "not", "arg": gen_atom(rng, c2)}]}
+
+
+def gen_null_cond(rng, cols):
+    r = rng.random()
+    if len(cols) == 1 or r < 0.25:
+        c1 = rng.choice(cols)
+        return {"op": rng.choice(["null"] * 5 + ["bothnull", "lnull", "rnull"]), "col": c1}
+    c1, c2 = rng.sample(cols, 2)
+    if r < 0.88:  # "something is missing"
+        return {"op": "or", "args": [{"op": "null", "col": c} for c in (cols if rng.random() < 0.6 else [c1, c2])]}
+    return {"op": "and", "args": [{"op": "null", "col": c1}, {"op": "null", "col": c2}]}
+
+
+def gen_comparison_free(rng: random.Random, cols: list, engine: str):
+    """Custom comparison: 1-4 non-null levels in arbitrary order + ELSE, 0-3 null levels inserted at arbitrary positions."""
+    k = rng.randint(1, 4)
+    if len(cols) == 1 and rng.random() < 0.6:
+        # the library ladder of one column, permuted (fuzzy before exact, wide before narrow)
+        col = cols[0]
+        ladder = [{"op": "eq", "col": col}] + ([{"op": "absdiff", "col": col, "k": 1}, {"op": "absdiff", "col": col, "k": 2}] if COL_TYPES[col] == "int"
+                                                else [{"op": "lev", "col": col, "k": 1}, {"op": "lev", "col": col, "k": 2}])
+        conds = rng.sample(ladder, min(k, 3))
+    else:
+        conds = [gen_cond(rng, cols) for _ in range(k)]
+    if len(conds) < 4 and rng.random() < 0.1:
+        conds.insert(rng.randint(0, len(conds)), json.loads(json.dumps(rng.choice(conds))))  # a repeated condition: only its first copy can fire
+    levels = [{"kind": "cond", "cond": cd} for cd in conds]
+    for _ in range(rng.choice([0, 1, 1, 1, 1, 1, 1, 2, 2, 3])):
+        levels.insert(rng.randint(0, len(levels)), {"kind": "null", "cond": gen_null_cond(rng, cols)})
+    levels.append({"kind": "else"})
+    nn = [l for l in levels if l["kind"] != "null"]
+    for l, m, u in zip(nn, gen_probs(rng, len(nn)), gen_probs(rng, len(nn))):
+        l["m"], l["u"] = m, u
+    boundary_probs(rng, nn)
+    c = {"col": cols[0], "cols": list(cols), "levels": levels}
+    strs = [x for x in cols if COL_TYPES[x] == "str"]
+    tfc = None
+    if strs and rng.random() < 0.5:
+        tfc = rng.choice(strs)
+        has_exact = any(is_plain_eq(level_cond(c, l), tfc) for l in levels)
+        for l in nn[:-1]:
+            if (tfc in cond_cols(l["cond"]) and rng.random() < 0.6) or rng.random() < 0.08:
+                l["tf"] = {"col": tfc, "weight": rng.choice([0.0, 0.3, 1.0, 1.0, 0.5]), "minU": rng.choice([0.0, 0.0, 0.01, 0.2])}
+                if not has_exact or (not is_plain_eq(l["cond"], tfc) and rng.random() < 0.25):
+                    l["tf"]["disable_detection"] = True  # without an exact-match level on the TF column the level must name its own u
+    if rng.random() < 0.12:
+        cand = [l for l in nn if "tf" not in l and not (tfc and is_plain_eq(level_cond(c, l), tfc))]
+        if cand:
+            rng.choice(cand)["u"] = 0.0
+    return c
+
+
+def gen_rows(rng, null_rates=(0.0, 0.15, 0.35)):
     n = rng.randint(2, 9)
-    null_rate = rng.choice([0.0, 0.15, 0.35])
+    null_rate = rng.choice(null_rates)
     rows = []
     for i in range(n):
         rows.append({
             "unique_id": i + 1,
             "a": None if rng.random() < null_rate else rng.choice(STR_DOM),
-            "b": None if rng.random() < null_rate else rng.choice(STR_DOM[:4]),
+            "b": None if rng.random() < null_rate else rng.choice(B_DOM),
             "c": None if rng.random() < null_rate else rng.choice(INT_DOM),
         })
-    cols = rng.sample(["a", "b", "c"], rng.randint(1, 3))
-    if rng.random() < 0.15:
-        cols.append(rng.choice(["a", "b"]))  # 4 comparisons, one column used twice (different output names)
-    comps = [gen_comparison(rng, c, engine) for c in cols]
-    prior = rng.choice([0.0001, 0.01, 0.3, 0.5, 0.9, round(rng.uniform(0.001, 0.999), 4)])
-    case = {"engine": engine, "rows": rows, "comparisons": comps, "prior": prior, "thr": None, "shuffle": rng.randrange(1 << 30), "tag": "random",
-            "construct": rng.choice(["dict", "dict", "creator"])}
+    return rows
+
+
+def gen_case(rng: random.Random, engine=None, family=None):
+    engine = engine or rng.choice(["duckdb", "duckdb", "sqlite"])
+    family = family or rng.choice(["library", "library", "library", "free", "free"])
+    rows = gen_rows(rng) if family != "free" else gen_rows(rng, (0.0, 0.15, 0.35, 0.35, 0.5))
+    if family == "free":
+        comps = []
+        for _ in range(rng.choice([1, 1, 2, 2, 3])):
+            cols = rng.sample(["a", "b", "c"], rng.choice([1, 1, 2, 2, 2, 3]))
+            comps.append(gen_comparison_free(rng, cols, engine))
+        if rng.random() < 0.3:
+            comps.insert(rng.randint(0, len(comps)), gen_comparison(rng, rng.choice(["a", "b", "c"]), engine))
+    else:
+        cols = rng.sample(["a", "b", "c"], rng.randint(1, 3))
+        if rng.random() < 0.15:
+            cols.append(rng.choice(["a", "b"]))  # 4 comparisons, one column used twice (different output names)
+        comps = [gen_comparison(rng, c, engine) for c in cols]
+    prior = rng.choice([0.0001, 0.01, 0.3, 0.5, 0.9, round(rng.uniform(0.001, 0.999), 4), round(rng.uniform(0.001, 0.999), 4), 1e-7, 0.999999])
+    case = {"engine": engine, "rows": rows, "comparisons": comps, "prior": prior, "thr": None, "shuffle": rng.randrange(1 << 30), "tag": "random", "family": family,
+            "construct": rng.choice(["dict", "dict", "dict", "creator", "creator", "dict_of_creators", "creator_of_dicts"])}
+    # non-default / default options of Settings and predict(): which columns are retained (the library default retains no
+    # intermediate columns), materialisation flags, an earlier predict() with another threshold on the same linker
+    r = rng.random()
+    case["retain"] = [True, True] if r < 0.75 else ([True, False] if r < 0.87 else ([False, False] if r < 0.95 else [False, True]))
+    if rng.random() < 0.2:
+        case["predict_flags"] = {"materialise_after_computing_term_frequencies": rng.random() < 0.5, "materialise_blocked_pairs": rng.random() < 0.5}
+    if rng.random() < 0.1:
+        case["settings_used_before"] = rng.choice(["same_engine", "other_engine"])  # the same settings object already served another Linker
+    if rng.random() < 0.08:
+        case["predict_before"] = rng.choice([{"threshold_match_probability": 0.5}, {"threshold_match_weight": 3.0}, {}])
     # registered TF lookup for a TF column, possibly with missing values
-    tfcols = sorted({c["col"] for c in comps if any("tf" in l for l in c["levels"])})
+    tfcols = sorted({tf_col(c, l) for c in comps for l in c["levels"] if "tf" in l})
     if tfcols and rng.random() < 0.35:
         col = rng.choice(tfcols)
-        dom = STR_DOM if col == "a" else STR_DOM[:4]
+        dom = STR_DOM if col == "a" else B_DOM
         vals = [v for v in dom if rng.random() < 0.7]
         case["tf_lookup"] = {col: {v: round(rng.uniform(0.01, 0.6), 4) for v in vals}}
     return case
@@ -108,72 +323,82 @@ def gen_case(rng: random.Random, engine=None):
 
 # --------------------------------------------------------------------------- settings construction
 def level_sql(col, l):
-    cl, cr = f'"{col}_l"', f'"{col}_r"'
-    k = l["kind"]
-    if k == "null":
-        return f"{cl} IS NULL OR {cr} IS NULL"
-    if k == "eq":
-        return f"{cl} = {cr}"
-    if k == "lev":
-        return f"levenshtein({cl}, {cr}) <= {l['k']}"
-    if k == "absdiff":
-        return f"abs({cl} - {cr}) <= {l['k']}"
-    return "ELSE"
+    if l["kind"] == "else":
+        return "ELSE"
+    return cond_sql(level_cond({"col": col}, l))
+
+
+def level_label(l):
+    return l["kind"] + str(l.get("k", ""))
+
+
+def level_dict(c, l):
+    d = {"sql_condition": level_sql(c["col"], l), "label_for_charts": level_label(l)}
+    if l["kind"] == "null":
+        d["is_null_level"] = True
+    else:
+        d["m_probability"], d["u_probability"] = l["m"], l["u"]
+    if "tf" in l:
+        d["tf_adjustment_column"] = tf_col(c, l)
+        d["tf_adjustment_weight"] = l["tf"]["weight"]
+        d["tf_minimum_u_value"] = l["tf"]["minU"]
+        if l["tf"].get("disable_detection"):
+            d["disable_tf_exact_match_detection"] = True
+    return d
+
+
+def level_creator(c, l):
+    import splink.comparison_level_library as cll
+
+    if l["kind"] == "null":
+        return cll.CustomLevel(level_sql(c["col"], l), "null").configure(is_null_level=True)
+    x = cll.CustomLevel(level_sql(c["col"], l), level_label(l))
+    kw = {"m_probability": l["m"], "u_probability": l["u"]}
+    if "tf" in l:
+        kw.update(tf_adjustment_column=tf_col(c, l), tf_adjustment_weight=l["tf"]["weight"], tf_minimum_u_value=l["tf"]["minU"])
+        if l["tf"].get("disable_detection"):
+            kw["disable_tf_exact_match_detection"] = True
+    return x.configure(**kw)
+
+
+def settings_kw(case):
+    rmc, ricc = case.get("retain", [True, True])
+    return {"link_type": "dedupe_only", "blocking_rules_to_generate_predictions": [], "probability_two_random_records_match": case["prior"],
+            "retain_matching_columns": rmc, "retain_intermediate_calculation_columns": ricc}
 
 
 def settings_dict(case):
-    comps = []
-    for ci, c in enumerate(case["comparisons"]):
-        lv = []
-        for l in c["levels"]:
-            d = {"sql_condition": level_sql(c["col"], l), "label_for_charts": l["kind"] + str(l.get("k", ""))}
-            if l["kind"] == "null":
-                d["is_null_level"] = True
-            else:
-                d["m_probability"], d["u_probability"] = l["m"], l["u"]
-            if "tf" in l:
-                d["tf_adjustment_column"] = c["col"]
-                d["tf_adjustment_weight"] = l["tf"]["weight"]
-                d["tf_minimum_u_value"] = l["tf"]["minU"]
-                if l["tf"].get("disable_detection"):
-                    d["disable_tf_exact_match_detection"] = True
-            lv.append(d)
-        comps.append({"output_column_name": f"{c['col']}{ci}", "comparison_levels": lv})
-    return {
-        "link_type": "dedupe_only", "comparisons": comps, "blocking_rules_to_generate_predictions": [],
-        "probability_two_random_records_match": case["prior"], "retain_matching_columns": True,
-        "retain_intermediate_calculation_columns": True,
-    }
+    comps = [{"output_column_name": f"{c['col']}{ci}", "comparison_levels": [level_dict(c, l) for l in c["levels"]]} for ci, c in enumerate(case["comparisons"])]
+    return {**settings_kw(case), "comparisons": comps}
 
 
-def settings_via_creators(case):
-    """Same model through the public creator API (CustomComparison / CustomLevel.configure)."""
-    import splink.comparison_level_library as cll
+def creator_comparisons(case, levels_as):
     import splink.comparison_library as cl
+
+    return [cl.CustomComparison(output_column_name=f"{c['col']}{ci}", comparison_levels=[(level_creator if levels_as == "creator" else level_dict)(c, l) for l in c["levels"]])
+            for ci, c in enumerate(case["comparisons"])]
+
+
+def settings_via_creators(case, levels_as="creator"):
+    """Same model through the public creator API (CustomComparison / CustomLevel.configure, or CustomComparison over level dicts)."""
     from splink import SettingsCreator
 
-    comps = []
-    for ci, c in enumerate(case["comparisons"]):
-        lv = []
-        for l in c["levels"]:
-            if l["kind"] == "null":
-                lv.append(cll.CustomLevel(level_sql(c["col"], l), "null").configure(is_null_level=True))
-                continue
-            x = cll.CustomLevel(level_sql(c["col"], l), l["kind"] + str(l.get("k", "")))
-            kw = {"m_probability": l["m"], "u_probability": l["u"]}
-            if "tf" in l:
-                kw.update(tf_adjustment_column=c["col"], tf_adjustment_weight=l["tf"]["weight"], tf_minimum_u_value=l["tf"]["minU"])
-                if l["tf"].get("disable_detection"):
-                    kw["disable_tf_exact_match_detection"] = True
-            lv.append(x.configure(**kw))
-        comps.append(cl.CustomComparison(output_column_name=f"{c['col']}{ci}", comparison_levels=lv))
-    return SettingsCreator(link_type="dedupe_only", comparisons=comps, blocking_rules_to_generate_predictions=[],
-                           probability_two_random_records_match=case["prior"], retain_matching_columns=True,
-                           retain_intermediate_calculation_columns=True)
+    return SettingsCreator(comparisons=creator_comparisons(case, levels_as), **settings_kw(case))
+
+
+def build_settings(case):
+    k = case.get("construct", "dict")
+    if k == "creator":
+        return settings_via_creators(case)
+    if k == "creator_of_dicts":
+        return settings_via_creators(case, "dict")
+    if k == "dict_of_creators":  # a settings dict holding comparison creator objects
+        return {**settings_kw(case), "comparisons": creator_comparisons(case, "creator")}
+    return settings_dict(case)
 
 
 def run_impl(case: dict) -> dict:
-    from splink import Linker, SettingsCreator
+    from splink import Linker
 
     from harness import impl
 
@@ -181,12 +406,17 @@ def run_impl(case: dict) -> dict:
     rows = list(case["rows"])
     random.Random(case.get("shuffle", 0)).shuffle(rows)
     df = impl.typed_frame(rows, {"unique_id": "int", "a": "str", "b": "str", "c": "int"})
-    settings = settings_via_creators(case) if case.get("construct") == "creator" else settings_dict(case)
+    settings = build_settings(case)
+    if case.get("settings_used_before"):
+        other = case["engine"] if case["settings_used_before"] == "same_engine" else {"duckdb": "sqlite", "sqlite": "duckdb"}[case["engine"]]
+        Linker(df, settings, impl.make_api(other, threads=2))  # object reuse: a creator / dict must give the same model again (also for another dialect)
     linker = Linker(df, settings, api)
     for col, table in (case.get("tf_lookup") or {}).items():
         tdf = impl.typed_frame([{col: v, f"tf_{col}": t} for v, t in table.items()], {col: "str", f"tf_{col}": "float"})
         linker.table_management.register_term_frequency_lookup(tdf, col, overwrite=True)
-    kw = {}
+    kw = dict(case.get("predict_flags") or {})
+    if case.get("predict_before") is not None:
+        linker.inference.predict(**case["predict_before"], **kw)  # an earlier call with other threshold arguments on the same linker
     if case.get("thr"):
         kw["threshold_match_weight" if case["thr"]["kind"] == "weight" else "threshold_match_probability"] = case["thr"]["value"]
     out = linker.inference.predict(**kw).as_record_dict()
@@ -194,7 +424,20 @@ def run_impl(case: dict) -> dict:
     for r in out:
         key = f"{r['unique_id_l']}-{r['unique_id_r']}"
         res[key] = {k: v for k, v in r.items() if k.startswith(("gamma_", "bf_", "tf_", "match_"))}
-    return {"rows": res}
+    ret = {"rows": res}
+    if case.get("retain", [True, True]) == [True, True] and out:
+        # waterfall records of every returned pair (public chart API; filter_nulls only adds a Vega filter, the data are complete)
+        try:
+            chart = linker.visualisations.waterfall_chart(out, filter_nulls=False, as_dict=True)
+            wf = {}
+            for d in chart["data"]["values"]:
+                r = out[d["record_number"]]
+                wf.setdefault(f"{r['unique_id_l']}-{r['unique_id_r']}", []).append(
+                    {k: d.get(k) for k in ("column_name", "log2_bayes_factor", "bayes_factor", "comparison_vector_value", "m_probability", "u_probability", "term_frequency_adjustment")})
+            ret["waterfall"] = wf
+        except Exception as e:  # a result of the real code, reported by the oracle
+            ret["waterfall_error"] = f"{type(e).__name__}: {e}"[:300]
+    return ret
 
 
 run_impl_safe = core.safe(run_impl)
@@ -212,21 +455,24 @@ def tf_tables(case):
     return out
 
 
-def guard(l, x, y):
-    k = l["kind"]
-    if k == "null":
-        return 1 if (x is None or y is None) else 0
-    if k == "else":
+def guard(c, l, x, y):
+    """Outcome of a level's condition on the pair, as the CASE sees it (1 true / 0 false / 2 unknown); ELSE is taken when reached."""
+    if l["kind"] == "else":
         return 1
-    if x is None or y is None:
-        return 2
-    if k == "eq":
-        return 1 if x == y else 0
-    if k == "lev":
-        return 1 if lev(x, y) <= l["k"] else 0
-    if k == "absdiff":
-        return 1 if abs(x - y) <= l["k"] else 0
-    raise ValueError(k)
+    return cond_eval(level_cond(c, l), x, y)
+
+
+def guard_values(l, xv, yv):
+    """`guard` for a single-column level given the two values (the form other checks use)."""
+    return guard({"col": "v"}, l, {"v": xv}, {"v": yv})
+
+
+def exact_match_u(c, tfc):
+    """u of the first listed level whose whole condition is the plain equality of the TF column (None if there is none)."""
+    for l in c["levels"]:
+        if is_plain_eq(level_cond(c, l), tfc):
+            return l.get("u")
+    return None
 
 
 def model_levels(case):
@@ -236,7 +482,6 @@ def model_levels(case):
         nn = [l for l in c["levels"] if l["kind"] != "null"]
         out = []
         counter = len(nn) - 1
-        exact_u = next((l["u"] for l in c["levels"] if l["kind"] == "eq"), None)
         for l in c["levels"]:
             d = {"isNull": l["kind"] == "null", "isElse": l["kind"] == "else", "m": core.f2b(l.get("m", 0.5)), "u": core.f2b(l.get("u", 0.5)), "tf": None}
             if l["kind"] == "null":
@@ -245,8 +490,8 @@ def model_levels(case):
                 d["cvv"] = counter
                 counter -= 1
             if "tf" in l:
-                ue = l["u"] if l["tf"].get("disable_detection") else exact_u
-                d["tf"] = {"col": tfcol_index[c["col"]], "weight": core.f2b(l["tf"]["weight"]), "minU": core.f2b(l["tf"]["minU"]), "uExact": core.f2b(ue)}
+                ue = l["u"] if l["tf"].get("disable_detection") else exact_match_u(c, tf_col(c, l))
+                d["tf"] = {"col": tfcol_index[tf_col(c, l)], "weight": core.f2b(l["tf"]["weight"]), "minU": core.f2b(l["tf"]["minU"]), "uExact": core.f2b(ue)}
             out.append(d)
         comps.append(out)
     return comps
@@ -261,7 +506,7 @@ def model_request(case):
     tfs = tf_tables(case)
     pairs = []
     for x, y in pairs_of(case):
-        guards = [[guard(l, x[c["col"]], y[c["col"]]) for l in c["levels"]] for c in case["comparisons"]]
+        guards = [[guard(c, l, x, y) for l in c["levels"]] for c in case["comparisons"]]
 
         def tfv(rec, col):
             v = rec[col]
@@ -282,44 +527,81 @@ def fac(x):
 
 
 # --------------------------------------------------------------------------- independent oracle (closed form)
-def oracle_weight(case, x, y):
+def first_true_level(c, x, y):
+    """Index of the first LISTED level whose condition is true on the pair (the ELSE level is true for every pair)."""
+    for i, l in enumerate(c["levels"]):
+        if l["kind"] == "else" or cond_eval(level_cond(c, l), x, y) == 1:
+            return i
+    return None
+
+
+def oracle_weight(case, x, y, detail=None):
     """log2(prior odds) + sum over comparisons of log2(m/u) + w*log2(uExact/max(tfl,tfr,minU)) for the first true level."""
     tfs = tf_tables(case)
     w = math.log2(case["prior"] / (1 - case["prior"]))
     gam = []
     infinite = False
     for c in case["comparisons"]:
-        nn = [l for l in c["levels"] if l["kind"] != "null"]
-        chosen = None
-        for l in c["levels"]:
-            if guard(l, x[c["col"]], y[c["col"]]) == 1:
-                chosen = l
-                break
+        i = first_true_level(c, x, y)
+        chosen = c["levels"][i]
+        if detail is not None:
+            detail.append(chosen)
         if chosen["kind"] == "null":
             gam.append(-1)
             continue
-        gam.append(len(nn) - 1 - nn.index(chosen))
+        # comparison vector value: the non-null levels are numbered downwards to 0 in listed order
+        gam.append(sum(1 for l in c["levels"][i + 1 :] if l["kind"] != "null"))
         if chosen["u"] == 0:
             infinite = True
             continue
         w += math.log2(chosen["m"] / chosen["u"])
         if "tf" in chosen and chosen["tf"]["weight"] != 0 and chosen["kind"] != "else":
-            tl = tfs[c["col"]].get(x[c["col"]])
-            tr = tfs[c["col"]].get(y[c["col"]])
+            tc = chosen["tf"].get("col", c["col"])
+            tl = tfs[tc].get(x[tc])
+            tr = tfs[tc].get(y[tc])
             cands = [t for t in (tl, tr) if t is not None]
             if cands:
-                exact_u = chosen["u"] if chosen["tf"].get("disable_detection") else next(l["u"] for l in c["levels"] if l["kind"] == "eq")
+                if chosen["tf"].get("disable_detection"):
+                    exact_u = chosen["u"]
+                else:
+                    exact_u = next(l["u"] for l in c["levels"] if (level_cond(c, l) or {}).get("op") == "eq" and level_cond(c, l)["col"] == tc)
                 div = max(cands + [chosen["tf"]["minU"]])
                 w += chosen["tf"]["weight"] * math.log2(exact_u / div)
     return gam, (math.inf if infinite else w)
 
 
+def waterfall_verdict(case, key, x, y, gam, w, row, recs):
+    """The waterfall records of a pair: prior + one bar per comparison (+ its TF bar) add up to the score; each bar shows the assigned level."""
+    if not recs or recs[0]["column_name"] != "Prior" or recs[-1]["column_name"] != "Final score":
+        return f"waterfall records of pair {key} do not run from 'Prior' to 'Final score': {[r['column_name'] for r in recs or []]}"
+    if not core.close(recs[-1]["log2_bayes_factor"], w, 1e-7, 1e-7):
+        return f"waterfall 'Final score' of pair {key} is {recs[-1]['log2_bayes_factor']}, Fellegi-Sunter formula gives {w}"
+    total = sum(r["log2_bayes_factor"] for r in recs[:-1])
+    if not core.close(total, w, 1e-7, 1e-7):
+        return f"waterfall bars of pair {key} add up to {total}, the score is {w}"
+    chosen = []
+    oracle_weight(case, x, y, chosen)
+    bars = [r for r in recs[1:-1] if not r["term_frequency_adjustment"]]
+    if [r["column_name"] for r in bars] != [f"{c['col']}{ci}" for ci, c in enumerate(case["comparisons"])]:
+        return f"waterfall bars of pair {key}: {[r['column_name'] for r in bars]}, one per comparison expected"
+    for r, g, l in zip(bars, gam, chosen):
+        if r["comparison_vector_value"] != g:
+            return f"waterfall bar {r['column_name']} of pair {key} shows level {r['comparison_vector_value']}, first-true level is {g}"
+        want = (None, None) if l["kind"] == "null" else (l["m"], l["u"])
+        if (r["m_probability"], r["u_probability"]) != want:
+            return f"waterfall bar {r['column_name']} of pair {key} shows m,u = {(r['m_probability'], r['u_probability'])}, the assigned level has {want}"
+    return None
+
+
 def verdict(case, r):
     """Property decided on the real output only."""
     thr = case.get("thr")
+    rmc, ricc = case.get("retain", [True, True])
     tw = None
     if thr:
         tw = thr["value"] if thr["kind"] == "weight" else (None if thr["value"] == 0 else math.log2(thr["value"] / (1 - thr["value"])))
+    if r.get("waterfall_error"):
+        return f"waterfall_chart raised {r['waterfall_error']}"
     for x, y in pairs_of(case):
         key = f"{x['unique_id']}-{y['unique_id']}"
         gam, w = oracle_weight(case, x, y)
@@ -333,25 +615,76 @@ def verdict(case, r):
             continue
         if not should:
             return f"pair {key} with weight {w} is below the threshold {tw} but was returned"
-        got_g = [row[f"gamma_{c['col']}{ci}"] for ci, c in enumerate(case["comparisons"])]
-        if got_g != gam:
-            return f"comparison levels of pair {key}: got {got_g}, first-true levels are {gam}"
+        if rmc:
+            got_g = [row[f"gamma_{c['col']}{ci}"] for ci, c in enumerate(case["comparisons"])]
+            if got_g != gam:
+                return f"comparison levels of pair {key}: got {got_g}, first-true levels are {gam}"
         if not core.close(row["match_weight"], w, 1e-7, 1e-7):
             return f"match_weight of pair {key}: got {row['match_weight']}, Fellegi-Sunter formula gives {w}"
         p = 1.0 if w == math.inf else (2.0**w) / (1 + 2.0**w)
         if not core.close(row["match_probability"], p, 1e-7, 1e-9):
             return f"match_probability of pair {key}: got {row['match_probability']}, expected {p}"
-        # retained intermediate columns multiply to the score
-        prod = case["prior"] / (1 - case["prior"])
-        for k, v in row.items():
-            if k.startswith("bf_") and v is not None:
-                prod *= v
-        if w != math.inf and not core.close(math.log2(prod) if prod > 0 else -math.inf, row["match_weight"], 1e-7, 1e-7):
-            return f"intermediate columns of pair {key} multiply to weight {math.log2(prod) if prod > 0 else None}, match_weight is {row['match_weight']}"
+        if ricc:
+            # retained intermediate columns multiply to the score
+            missing = [f"bf_{c['col']}{ci}" for ci, c in enumerate(case["comparisons"]) if f"bf_{c['col']}{ci}" not in row]
+            if missing:
+                return f"intermediate columns {missing} of pair {key} are not in the output although retain_intermediate_calculation_columns is set"
+            prod = case["prior"] / (1 - case["prior"])
+            for k, v in row.items():
+                if k.startswith("bf_") and v is not None:
+                    prod *= v
+            if w != math.inf and not core.close(math.log2(prod) if prod > 0 else -math.inf, row["match_weight"], 1e-7, 1e-7):
+                return f"intermediate columns of pair {key} multiply to weight {math.log2(prod) if prod > 0 else None}, match_weight is {row['match_weight']}"
+        if "waterfall" in r:
+            v = waterfall_verdict(case, key, x, y, gam, w, row, r["waterfall"].get(key))
+            if v:
+                return v
     return None
 
 
 # --------------------------------------------------------------------------- comparison
+def count_shapes(ctx, c, ps, r):
+    """Evidence of the input families actually exercised (level order, null-level positions, order-sensitive pairs, options)."""
+    ctx.count("family", c.get("family", "library"))
+    ctx.count("retain_matching/intermediate", str(c.get("retain", [True, True])))
+    ctx.count("predict_flags", json.dumps(c.get("predict_flags"), sort_keys=True) if c.get("predict_flags") else "default")
+    ctx.count("predict_called_before", c.get("predict_before") is not None)
+    ctx.count("settings_object_used_before", c.get("settings_used_before") or "no")
+    ctx.count("prior_extreme", c["prior"] in (1e-7, 0.999999))
+    ctx.count("waterfall_checked", isinstance(r, dict) and "waterfall" in r)
+    vals = [rr[k] for rr in c["rows"] for k in ("a", "b")]
+    ctx.count("data_has_empty_string", "" in vals)
+    ctx.count("m_or_u_exactly_1", any(l.get("m") == 1.0 or l.get("u") == 1.0 for cc in c["comparisons"] for l in cc["levels"]))
+    lev2 = any(x[col] is not None and y[col] is not None and lev(x[col], y[col]) == 2 for x, y in ps for col in ("a", "b"))
+    ctx.count("pair_at_levenshtein_distance_2", lev2)
+    pos, multi, order_pairs, true_then_null, null_hits_late, n_null = set(), False, 0, 0, 0, set()
+    for cc in c["comparisons"]:
+        lv = cc["levels"]
+        nulls = [i for i, l in enumerate(lv) if l["kind"] == "null"]
+        n_null.add(len(nulls))
+        for i in nulls:
+            pos.add("first" if i == 0 else ("last_before_else" if i == len(lv) - 2 else "middle"))
+        conds = [level_cond(cc, l) for l in lv]
+        if any(t is not None and len(cond_cols(t)) > 1 for t in conds):
+            multi = True
+        for x, y in ps:
+            true_at = [i for i, l in enumerate(lv) if l["kind"] != "else" and cond_eval(conds[i], x, y) == 1]
+            if len(true_at) >= 2:
+                order_pairs += 1  # several listed conditions hold: which level is assigned depends on the listed order
+                if lv[true_at[0]]["kind"] != "null" and any(lv[i]["kind"] == "null" for i in true_at[1:]):
+                    true_then_null += 1
+            if true_at and lv[true_at[0]]["kind"] == "null" and true_at[0] > 0:
+                null_hits_late += 1
+    for p_ in sorted(pos) or ["no_null_level"]:
+        ctx.count("null_level_position", p_)
+    ctx.count("null_levels_per_comparison(max)", max(n_null) if n_null else 0)
+    ctx.count("multi_column_level_condition", multi)
+    ctx.count("case_has_pair_with_several_true_levels", order_pairs > 0)
+    ctx.count("case_has_pair_true_level_listed_before_true_null_level", true_then_null > 0)
+    ctx.count("case_has_pair_assigned_null_level_not_listed_first", null_hits_late > 0)
+    ctx.count("tf_column_differs_from_comparison_column", any("tf" in l and tf_col(cc, l) != cc["col"] for cc in c["comparisons"] for l in cc["levels"]))
+
+
 def compare(ctx, cases, drv):
     reqs = [model_request(c) for c in cases]
     res = core.pmap(run_impl_safe, cases, chunksize=2)
@@ -361,11 +694,13 @@ def compare(ctx, cases, drv):
         ps = pairs_of(c)
         has_tf = any("tf" in l for cc in c["comparisons"] for l in cc["levels"])
         has_inf = any(l.get("u") == 0 for cc in c["comparisons"] for l in cc["levels"])
-        ctx.case({k: c[k] for k in ("rows", "comparisons", "prior", "thr", "engine", "construct", "tf_lookup") if k in c}, len(ps) >= 1 and len(c["comparisons"]) >= 1,
-                 sample={"case": {k: c[k] for k in ("rows", "comparisons", "prior", "thr", "engine", "construct")}, "impl": r.get("rows") if isinstance(r, dict) else None} if len(c["rows"]) <= 2 and len(c["comparisons"]) <= 2 else None)
+        keys = ("rows", "comparisons", "prior", "thr", "engine", "construct", "tf_lookup", "retain", "predict_flags", "predict_before", "settings_used_before")
+        ctx.case({k: c[k] for k in keys if k in c}, len(ps) >= 1 and len(c["comparisons"]) >= 1,
+                 sample={"case": {k: c[k] for k in keys if k in c}, "impl": r.get("rows") if isinstance(r, dict) else None} if len(c["rows"]) <= 2 and len(c["comparisons"]) <= 2 else None)
         ctx.count("engine", c["engine"]); ctx.count("n_comparisons", len(c["comparisons"])); ctx.count("has_tf", has_tf); ctx.count("has_u_zero", has_inf)
         ctx.count("threshold", "none" if not c.get("thr") else c["thr"]["kind"]); ctx.count("construct", c.get("construct", "dict")); ctx.count("tf_lookup_registered", bool(c.get("tf_lookup")))
         ctx.count("tf_weights", sorted({l["tf"]["weight"] for cc in c["comparisons"] for l in cc["levels"] if "tf" in l}).__str__())
+        count_shapes(ctx, c, ps, r)
         if core.impl_error(r):
             ctx.count("impl_error", r["__error__"])
             problems.append((c, f"real code raised {r['__error__']}: {r['text'][:300]}", True))
@@ -399,7 +734,8 @@ def compare(ctx, cases, drv):
                 break
             if row is None:
                 continue
-            gm = [row[f"gamma_{cc['col']}{ci}"] for ci, cc in enumerate(c["comparisons"])]
+            rmc, ricc = c.get("retain", [True, True])
+            gm = [row[f"gamma_{cc['col']}{ci}"] for ci, cc in enumerate(c["comparisons"])] if rmc else mr["gammas"]
             if gm != mr["gammas"]:
                 bad = f"pair {key}: gammas impl {gm} model {mr['gammas']}"
                 break
@@ -410,7 +746,7 @@ def compare(ctx, cases, drv):
                 terms.append(row.get(f"bf_{nm}"))
                 if any("tf" in l for l in cc["levels"]):
                     terms.append(row.get(f"bf_tf_adj_{nm}"))
-            mt = [fac(t) for t in mr["terms"]]
+            mt = [fac(t) for t in mr["terms"]] if ricc else terms
             if len(terms) != len(mt) or any(not core.close(a, b, 1e-9) for a, b in zip(terms, mt)):
                 bad = f"pair {key}: bf/tf_adj columns impl {terms} model {mt}"
                 break
@@ -427,7 +763,7 @@ def compare(ctx, cases, drv):
 def gen_cases(ctx):
     rng = ctx.rng
     cases = []
-    n = ctx.budget(170, 3000)
+    n = ctx.budget(250, 4000)
     for _ in range(n):
         c = gen_case(rng)
         cases.append(c)
@@ -455,11 +791,12 @@ def gen_cases(ctx):
     return cases + extra
 
 
-def impl_fails(case):
+def impl_fails(case, same_as=None):
     r = run_impl_safe(case)
     if "__error__" in r:
-        return True
-    return verdict(case, r) is not None
+        return same_as in (None, "real code raised")
+    v = verdict(case, r)
+    return v is not None and (same_as is None or classify(v) == same_as)
 
 
 def shrink(case):
@@ -484,13 +821,26 @@ def shrink(case):
             budget -= 1
             if impl_fails(cand):
                 cur, changed = cand, True
+        # levels other than ELSE (only while the same kind of failure stays: removing the exact-match level of a TF column is an error of its own)
+        r0 = run_impl_safe(cur)
+        kind0 = "real code raised" if "__error__" in r0 else classify(verdict(cur, r0) or "")
+        for ci in range(len(cur["comparisons"])):
+            for k in range(len(cur["comparisons"][ci]["levels"]) - 2, -1, -1):
+                if budget <= 0 or len(cur["comparisons"][ci]["levels"]) <= 2:
+                    break
+                cand = json.loads(json.dumps(cur))
+                del cand["comparisons"][ci]["levels"][k]
+                budget -= 1
+                if kind0 != "real code raised" and impl_fails(cand, kind0):
+                    cur, changed = cand, True
     return cur
 
 
 def classify(what: str) -> str:
     for pat, cls in [("is missing", "pair missing"), ("below the threshold", "pair below threshold returned"), ("comparison levels of pair", "wrong comparison level"),
                      ("match_weight of pair", "match_weight differs from formula"), ("match_probability of pair", "match_probability differs"),
-                     ("intermediate columns", "intermediate columns do not multiply to score"), ("real code raised", "real code raised")]:
+                     ("intermediate columns of pair", "intermediate columns do not multiply to score"), ("intermediate columns [", "retained intermediate columns missing"),
+                     ("waterfall_chart raised", "waterfall_chart raised"), ("waterfall", "waterfall records differ from the score"), ("real code raised", "real code raised")]:
         if pat in what:
             return cls
     return what[:60]
@@ -506,16 +856,22 @@ def match_info(case, what):
 
 def run(ctx: core.Ctx):
     ctx.rule = (
-        "cases = 2-9 records over tiny string/int domains (NULL rate 0-35%), 1-4 comparisons (exact / levenshtein<=1[,2] / numeric abs-diff) with 2-5 levels, with or "
-        "without a null level, m,u random in (0,1] (12% a u=0 level), TF adjustments on exact and fuzzy levels with weight in {0,0.3,0.5,1}, minimum-u in {0,0.01,0.2}, "
-        "detection disabled 25%, registered TF lookup tables with missing values 35%, priors in (0,1); built from a settings dict or through CustomComparison/CustomLevel "
-        "creators; + the same cases with a weight/probability threshold sitting on, just above, just below an emitted score; duckdb+sqlite. Every retained column of every "
-        "pair compared. non-trivial = at least one pair and one comparison; distinct = hash of (rows, model, threshold, engine, construction path)."
+        "cases = 2-9 records over tiny string/int domains (empty string, values at levenshtein distance exactly 1 and 2, negative ints; NULL rate 0-35%). Family 'library' (60%): 1-4 "
+        "single-column comparisons (exact / levenshtein<=1[,2] / numeric abs-diff) with 2-5 levels in library order, with or without a leading null level. Family 'free' (40%): 1-4 custom "
+        "comparisons over 1-3 columns whose 1-4 non-null levels are listed in ARBITRARY order (permuted ladders, repeated and overlapping conditions, AND/OR/NOT of atoms on several "
+        "columns, cross-column equality, <>, conditions containing null tests) with 0-3 null levels (either/both/one side missing, any/all of several columns missing) at arbitrary "
+        "positions, TF column possibly different from the comparison's first column. Both: m,u random in (0,1] (8% exactly 1; 12% a u=0 level), TF adjustments on exact and fuzzy "
+        "levels with weight in {0,0.3,0.5,1}, minimum-u in {0,0.01,0.2}, detection disabled 25%, registered TF lookup tables with missing values 35%, priors in (0,1); built from a "
+        "settings dict, CustomComparison/CustomLevel creators, a dict holding creators, or creators holding level dicts; retain_matching_columns / "
+        "retain_intermediate_calculation_columns in all four combinations (75% both), predict() materialisation flags, an earlier predict() with other thresholds on the same linker, the settings object already used by another Linker (same / other dialect); priors incl. 1e-7 and 0.999999; "
+        "+ the same cases with a weight/probability threshold sitting on, just above, just below an emitted score; duckdb+sqlite. Every retained column of every pair compared; with "
+        "both retain flags the waterfall records of every returned pair are checked against the score. non-trivial = at least one pair and one comparison; distinct = hash of (rows, "
+        "model, threshold, engine, construction path, options)."
     )
     ctx.assumptions = [
-        "0 < m <= 1, 0 <= u <= 1, 0 < prior < 1, every comparison ends with an ELSE level (library shape)",
+        "0 < m <= 1, 0 <= u <= 1, 0 < prior < 1, every comparison ends with an ELSE level (library shape); a TF-adjusted level either disables exact-match detection or its comparison lists a plain col_l = col_r level on the TF column",
         "floating point: columns compared at relative 1e-9 with the Float model and 1e-7 with the closed-form oracle; rows within 1e-9 of the threshold excepted",
-        "level conditions used here (equality, levenshtein, abs difference, IS NULL) are evaluated by the harness itself",
+        "level conditions used here (equality, <>, levenshtein, abs difference, IS NULL, cross-column equality and their AND/OR/NOT under SQL three-valued logic) are evaluated by the harness itself",
     ]
     from harness.translate import tarith
 
